@@ -853,6 +853,24 @@ namespace
 	}
 
 	/// <summary>
+	/// Moves the reader forward over `size` bytes by reading through them, chunk by chunk: unlike a seek this also works on
+	/// streams that cannot seek (pipes, sockets), where a skipped value that ends outside the cached chunk used to fail.
+	/// Returns `false` when the data ends before.
+	/// </summary>
+	bool SkipBytes(Detail::CBinaryStreamReader& binaryStreamReader, size_t size)
+	{
+		while (size != 0)
+		{
+			const auto chunk = binaryStreamReader.ReadByChunks(size);
+			if (chunk.empty()) {
+				return false;
+			}
+			size -= chunk.size();
+		}
+		return true;
+	}
+
+	/// <summary>
 	/// Moves the reader to a position next to the current one (back to the start of an `ext` header after looking ahead,
 	/// or over it). When the stream refuses (it is not seekable and the position is not in the cached chunk) the load
 	/// cannot go on from the right place: that must not pass silently.
@@ -915,7 +933,7 @@ namespace
 				extSize = 0;
 			}
 
-			if (size == 0 || binaryStreamReader.SetPosition(binaryStreamReader.GetPosition() + size))
+			if (size == 0 || SkipBytes(binaryStreamReader, size))
 			{
 				if (extSize)
 				{
